@@ -101,8 +101,7 @@ def _fresh_typing_tuple():
 
 
 def _fresh_generic(pane, arg):
-    from pane.classes import _make_subclass
-    _make_subclass.cache_clear()
+    core.clear_subscription_memo()
     _DIRTY[0] = True
     return fixtures(pane)['G'][arg]
 
@@ -132,7 +131,7 @@ KINDS: t.Dict[str, t.Callable[[t.Any], t.Any]] = {
 }
 LONG_LIVED = ('long_list', 'inner_dc', 'outer_dc', 'union_lists', 'list_union', 'float_t', 'complex_t', 'ren_dc', 'fac_dc')
 KIND_NAMES = list(KINDS)
-HFORMS = ['plain', 'map', 'callable', 'seq', 'smap_a', 'smap_b']     # smap_*: ONE shared dict object whose content is changed between calls
+HFORMS = ['plain', 'map', 'callable', 'seq', 'smap_a', 'smap_b', 'smap_c']     # smap_*: ONE shared dict object whose content is changed between calls
 # alphabets per tier: (kinds that may be BUILT, handler forms at inner levels); the last level always tries all four handler forms
 ALPHABET = {
     'quick': (['tup_a', 'tup_b', 'list_str', 'generic_int', 'inner_dc', 'outer_dc', 'float_t'], ['plain', 'callable', 'smap_a']),
@@ -147,8 +146,9 @@ def handlers_for(pane, hform, fresh=False):
     fx = fixtures(pane)
     if hform == 'plain':
         return None
-    if hform in ('smap_a', 'smap_b'):
-        content = {int: fx['times3']} if hform == 'smap_a' else {int: fx['times10'], float: fx['times3']}
+    if hform in ('smap_a', 'smap_b', 'smap_c'):
+        # (smap_c has the KEYS of smap_a and another converter under them)
+        content = {'smap_a': {int: fx['times3']}, 'smap_b': {int: fx['times10'], float: fx['times3']}, 'smap_c': {int: fx['times10']}}[hform]
         if fresh:
             return dict(content)
         _SHARED_MAP.clear()                # the application's registry dict: same object, new content
@@ -208,11 +208,10 @@ _DIRTY = [True]        # classes (cyclic garbage) were created since the last fu
 
 def reset(pane):
     from pane.convert import make_converter
-    from pane.classes import _make_subclass
     import sys
     pc = sys.modules['pane.convert']
     make_converter.cache.clear()
-    _make_subclass.cache_clear()
+    core.clear_subscription_memo()
     del pc._GLOBAL_HANDLERS[1:]
     if _DIRTY[0]:
         # only class objects (generic subclasses) live in reference cycles; tuples, aliases and dicts die by refcount
@@ -734,6 +733,93 @@ def run_valseq(pane, res, kind, table, depth):
     res['outcomes']['value_sequences'] += n
 
 
+
+# ------------------------------------------------------------------ families of related generic dataclasses
+
+FAMILY_PROBES = [{'x': 1}, {'x': 1, 'r': 2}, {'x': 1, 'text': 'hi'}, {'x': 'a', 'text': 'hi'}, {'x': 1, 'q': 0}, [1], {}]
+
+
+def _family(pane):
+    """Generic dataclasses that are related by inheritance and subscripted with EQUAL arguments: two children of one generic
+    base, a parent and its open child, a class and a same-named class from another scope."""
+    from mc.classes_gen import new_class
+    T = t.TypeVar('T')
+    Base = new_class('FamBase', (pane.PaneBase, t.Generic[T]), {'__annotations__': {'x': T}, '__module__': 'mc.generated'})
+    SibA = new_class('FamSibA', (Base[T],), {'__annotations__': {'r': int}, 'r': 0, '__module__': 'mc.generated'})
+    SibB = new_class('FamSibB', (Base[T],), {'__annotations__': {'text': str}, 'text': '', '__module__': 'mc.generated'})
+    Child = new_class('FamChild', (Base[T],), {'__annotations__': {'q': int}, 'q': 5, '__module__': 'mc.generated'}, allow_extra=True)
+    Twin = new_class('FamBase', (pane.PaneBase, t.Generic[T]), {'__annotations__': {'x': T, 'text': str}, 'text': 'twin', '__module__': 'mc.generated'})
+    return {'base': Base, 'sib_a': SibA, 'sib_b': SibB, 'child': Child, 'twin': Twin}
+
+
+def _family_outcomes(pane, order, args):
+    from pane.errors import ConvertError
+    fam = _family(pane)
+    out = {}
+    for name in order:
+        cls = fam[name][args]
+        vec = []
+        for p in FAMILY_PROBES:
+            try:
+                x = pane.from_data(values.fresh(p), cls)
+                vec.append(['ok', type(x).__name__.split('[')[0], repr(x), repr(pane.into_data(x, cls))])
+            except ConvertError as e:
+                vec.append(['rej', str(e)[:200]])
+            except Exception as e:  # noqa
+                vec.append(['raw', type(e).__name__ + ': ' + str(e)[:120]])
+        out[name] = vec
+    return out
+
+
+def _in_child(fn):
+    import json as _json
+    r, w = os.pipe()
+    pid = os.fork()
+    if pid == 0:
+        try:
+            os.close(r)
+            os.write(w, _json.dumps(fn()).encode())
+        finally:
+            os._exit(0)
+    os.close(w)
+    data = b''
+    while True:
+        chunk = os.read(r, 65536)
+        if not chunk:
+            break
+        data += chunk
+    os.close(r)
+    os.waitpid(pid, 0)
+    return _json.loads(data.decode()) if data else None
+
+
+def run_families(pane, res):
+    """Every order in which the members of the family can be subscripted and used first (each order in its own forked child)
+    must give every member the outcomes it has when it is the only one ever used."""
+    names = ['base', 'sib_a', 'sib_b', 'child', 'twin']
+    for args, aname in ((int, 'int'), (str, 'str')):
+        alone = {n: _in_child(lambda n=n: _family_outcomes(pane, [n], args)) for n in names}
+        for k in (2, 3):
+            for order in itertools.permutations(names, k):
+                got = _in_child(lambda order=order: _family_outcomes(pane, list(order), args))
+                res['states'] += 1
+                res['evals'] += len(order) * len(FAMILY_PROBES)
+                res['transitions'] += len(order) * len(FAMILY_PROBES)
+                res['validated'] += len(order) * len(FAMILY_PROBES)
+                res['nontrivial'].add(f"family|{aname}|{'>'.join(order)}")
+                if got is None or any(alone[n] is None for n in order):
+                    res['errors'].append(f"family child process failed for {order}")
+                    continue
+                for n in order:
+                    want = alone[n][n]
+                    if got[n] != want:
+                        i = next(i for i, (a, b) in enumerate(zip(got[n], want)) if a != b)
+                        core.add_violation(res, {'kind': 'generic_family_order', 'member': n, 'first': order[0]},
+                                           f"{n}[{aname}] after the family members {list(order[:order.index(n)])} were subscripted with the same "
+                                           f"argument: probe {FAMILY_PROBES[i]!r} gives {got[n][i]}; used alone it gives {want[i]}",
+                                           {'part': 'families', 'order': list(order), 'args': aname}, 5 + len(order))
+
+
 def plan(tier, seed):
     # the pristine outcome table is computed ONCE, in fresh interpreters, and handed to every history shard
     table = [[list(k), [list(x) for x in v]] for k, v in pristine_table().items()]
@@ -746,6 +832,7 @@ def plan(tier, seed):
     for k in HSEQ_KINDS:
         shards.append({'part': 'hseq', 'kind': k, 'table': [e for e in table if e[0][0] == k]})
     shards.append({'part': 'readers'})
+    shards.append({'part': 'families'})
     scs = scenarios()
     # the expensive three-thread and make_converter scenarios first, one scenario per shard
     order = sorted(range(len(scs)), key=lambda i: (scs[i]['kind'] == 'keycache', scs[i].get('shape') != [3, 1]))
@@ -766,6 +853,9 @@ def run_shard(shard, tier):
         return res
     if shard['part'] == 'hseq':
         run_hseq(pane, res, shard['kind'], shard['table'], 3)
+        return res
+    if shard['part'] == 'families':
+        run_families(pane, res)
         return res
     if shard['part'] == 'readers':
         # sequences of the file readers on the same texts: what one does to shared state must not change what the next returns
@@ -793,6 +883,9 @@ def replay(cell):
     pane = core.import_pane()
     warnings.simplefilter('ignore')
     res = core.new_result()
+    if cell.get('part') == 'families':
+        run_families(pane, res)
+        return [v for v in res['violations'] if v['cell'].get('order') == cell['order'] and v['cell'].get('args') == cell['args']]
     if cell.get('reader_histories') or cell.get('multi_union') or cell.get('part') in ('valseq', 'hseq'):
         return []          # (history-dependent by construction: confirmed by re-running the originating shard)
     if cell['part'] == 'hist':
